@@ -175,6 +175,21 @@ CHECKS = {
     note=TRUSTED + "Closed vocabulary (6 profiles, ASCII), fixed DESCRIPTION/EXAMPLE payloads, exact binary multipliers. Five documented "
          "either-way bands where the documentation is silent. Depth-3 trees are sampled. One known finding remains (P22: unknown "
          "profile names inside EXTENDERS are accepted; the two-line repair breaks a test of the repository)."),
+ "C11": dict(
+    text=("Reuse.tla models every module's results as a state machine (absent/fresh/saved; Run, Save, Regenerate, ChangeOption) and "
+          "classifies each recorded setting as hard (rule set, fungal multipliers, thresholds, schema version, record id), soft "
+          "(strictness with unchanged rule set) or free (not recorded). TLC explores every history of <= 5 (quick) / <= 7 (thorough) "
+          "actions for 7 kinds of results with every outcome the spec allows: results in use are never stale, same settings reproduce "
+          "JSON and effects, conversions equal a fresh run; a label-comparing implementation refines the spec; modules ignoring "
+          "multipliers, schema or threshold violate NeverReinterpreted / StaleDropped (negative controls). Every history is replayed "
+          "on real results objects of hmm_detection (real regenerate_previous_results and rule sets), sideloader, nrps_pks_domains, "
+          "cluster_hmmer/full_hmmer, tta, pfam2go and t2pks exactly as main.run_module does, in interpreters with fixed hash seeds; "
+          "Reuse_Trace (TLC) judges every regeneration from digests of the JSON texts and record projections. Plus seeded content "
+          "sweeps (two save/regenerate cycles) and random histories of 6-14 actions."),
+    design="6/C11", technique="TLA+ spec (Reuse.tla) + TLC model checking (all histories, implementation-shaped refinement, 3 negative controls) + TLC trace validation of behaviour replays on real results objects",
+    note=TRUSTED + "Histories are exhaustive to the stated depth; the results objects are seeded samples. External binaries are replaced "
+         "by hit tables. A schema change is materialised by shifting the saved schema field(s). Sandwiches: a strictness-only change "
+         "may reuse unchanged; sideload arguments are free; HmmerResults.refilter trim band."),
 }
 CHECKS_END = None
 NOT_BUILT = "not built yet (work in progress, see DESIGN.md section 10 build order)"
